@@ -214,6 +214,49 @@ func pullLoopFacts(p *packages.Package) (registersFirst bool, cases []string) {
 	return
 }
 
+// every transaction closure (argument of runTx) of GetSubscriptionMessages.execute that selects
+// candidates (queryAndLockDeliveriesOnce): "with-apply" when the same closure also records the
+// attempt (applyResults) — selection and lease are one transaction — else "without-apply"
+func pullTxShape(p *packages.Package) []string {
+	fd := funcDecl(p, "GetSubscriptionMessages", "execute")
+	var res []string
+	if fd == nil {
+		problem("GetSubscriptionMessages.execute not found")
+		return res
+	}
+	ast.Inspect(fd.Body, func(n ast.Node) bool {
+		c, ok := n.(*ast.CallExpr)
+		if !ok || exprName(c.Fun) != "runTx" || len(c.Args) != 1 {
+			return true
+		}
+		fl, ok := c.Args[0].(*ast.FuncLit)
+		if !ok {
+			return true
+		}
+		selects, applies := false, false
+		ast.Inspect(fl.Body, func(m ast.Node) bool {
+			if cc, ok := m.(*ast.CallExpr); ok {
+				switch exprName(cc.Fun) {
+				case "a.queryAndLockDeliveriesOnce":
+					selects = true
+				case "a.applyResults":
+					applies = true
+				}
+			}
+			return true
+		})
+		if selects {
+			if applies {
+				res = append(res, "with-apply")
+			} else {
+				res = append(res, "without-apply")
+			}
+		}
+		return true
+	})
+	return res
+}
+
 // every `case <-pubNotify:` of MessageStreamer.Go: does its body start by taking a new awaiter
 func streamerRenewals(p *packages.Package) []string {
 	fd := funcDecl(p, "MessageStreamer", "Go")
@@ -694,6 +737,7 @@ func main() {
 	regFirst, selCases := pullLoopFacts(act)
 	fmt.Fprintf(&out, "/-- in the RETRY loop of GetSubscriptionMessages.execute the awaiter is registered before the query transaction -/\ndef pullRegistersBeforeQuery : Bool := %v\n", regFirst)
 	fmt.Fprintf(&out, "/-- the cases of that loop's select and how each ends -/\ndef pullSelectCases : List String := %s\n", q(selCases))
+	fmt.Fprintf(&out, "/-- the transaction closures of GetSubscriptionMessages.execute that select candidates: do they record the attempt too -/\ndef pullTxShape : List String := %s\n", q(pullTxShape(act)))
 	fmt.Fprintf(&out, "/-- every `case <-pubNotify` of MessageStreamer.Go: does it take a new awaiter first -/\ndef streamerRenewals : List String := %s\n", q(streamerRenewals(act)))
 	fmt.Fprintf(&out, "/-- every `delete(pending, id)` of the reader goroutine of MessageStreamer.Go: is it under `if pending[id] == <entry snapshotted before the database call>` -/\ndef streamerReaderReleases : List String := %s\n", q(streamerReaderReleases(act)))
 
